@@ -85,11 +85,14 @@ def load_known():
     return known, fixed
 
 
-def match_known(known, pid, ob, args, kwargs):
+def match_known(known, pid, ob, args, kwargs, rep=None):
     for ent in known:
         if ent.get('property') != pid:
             continue
         if not fnmatch.fnmatch(ob['name'], ent.get('obligation', '*')):
+            continue
+        sig = ent.get('sig')
+        if sig and sig not in json.dumps(rep or {}):
             continue
         pred = ent.get('when', 'True')
         try:
@@ -216,7 +219,7 @@ def check_property(pid, tier, seed, only=None, verbose=True):
             row['counterexample'] = cex.get('raw') or cex
             row['replay'] = rep
             if rep.get('outcome') == 'violates':
-                ent = match_known(known, pid, ob, args, kwargs)
+                ent = match_known(known, pid, ob, args, kwargs, rep)
                 path = write_replay(pid, ob, args, kwargs, res, rep)
                 if ent is not None:
                     known_hits.append((ent, ob, path))
